@@ -20,3 +20,14 @@ CHECKS['C11'] = dict(
     note='Decides necessary structural clauses, not full functional correctness of the recursive helpers on all include/exclude pairs. '
          'Trusted: CPython set/dict semantics, README parser (box-drawing block).',
 )
+
+CHECKS['C18'] = dict(
+    category='other',
+    technique='sibling cross-check on facts extracted by symbolic path enumeration (catch-all, accepted set closure, polarity/identity, fallback category) + dispatch-table extraction + grammar start-rule anchoring',
+    text='Decides the dispatch rule of the six non-kern importers for every cell text: the kern parse is wrapped in a catch-all, the accepted '
+         'set (closed under the hierarchy) contains the shared structure and no note material, accepted tokens are returned as produced, '
+         'all others become SimpleToken(raw cell, OWN) with one OWN per importer, all siblings agree on the polarity, createImporter maps '
+         'each supported header to its importer. Whole-cell consumption (F3) is reported as a known finding.',
+    note='The generated ALL(*) parser is not analysed: which texts parse as kern tokens is outside this check. Trusted: the frozen table of own '
+         'categories per spine type (text=LYRICS, dynam/dyn=DYNAMICS, harm=HARMONY, mxhm=HARMONY|MHXM, fing=FINGERING, unknown=OTHER).',
+)
